@@ -116,6 +116,12 @@ class C18:
             for head in [":", "sha256:", "x:", ":sha256:"]:
                 cases.append({"kind": "checksum", "s": list((head + "sha256:" + body).encode())})
             cases.append({"kind": "checksum", "s": list(("sha256:" + body[:32] + ":" + body[32:]).encode())})
+        # the other digest the crate ships: Checksum<Sha512> (64 bytes)
+        for ln in [0, 2, 62, 64, 66, 126, 127, 128, 129, 130, 256]:
+            for pre in ["sha512:", "sha256:", "SHA512:", "sha512", "sha512::"]:
+                for _ in range(3):
+                    body = "".join(rng.choice(hexa) for _ in range(ln))
+                    cases.append({"kind": "checksum", "alg": 512, "s": list((pre + body).encode())})
         # toml round trip
         for _ in range(1500 if tier == "thorough" else 200):
             arts = []
@@ -161,7 +167,7 @@ class C18:
                                              cq_opt(o.get("shown"), cq_bytes), cq_bool(bool(o.get("reparse_eq"))))
             else:
                 ob = f"(CkErr {ERR[o['err']]})"
-            return f"(CChecksum {cq_bytes(c['s'])} {ob})"
+            return f"({'CChecksum512' if c.get('alg') == 512 else 'CChecksum'} {cq_bytes(c['s'])} {ob})"
         arts = []
         for a in c["arts"]:
             ver = ("%d.%d.0" % tuple(a["ver"])).encode()
